@@ -9,8 +9,9 @@
       - an attribute set is a canonical key ([N]); a data point value is a
         vector: [[v]] for sums and gauges, [[sum; count; bucket counts...]]
         for histograms (so "count, sum and per-bucket counts" are the components);
-      - a history is a list of [op]; [Collect script failing] is one collection point at
-        which BOTH readers collect; [failing] lists the callbacks that return an error in this
+      - a history is a list of [op]; [Collect who script failing] is one collection point at
+        which both readers (who = 0), only the delta reader (1) or only the cumulative reader (2)
+        collect; [failing] lists the callbacks that return an error in this
         cycle (after making their observations); [script] lists what each callback would observe
         if it were invoked in that cycle (callback id, instrument, attribute set, value),
         in the callback's own order;
@@ -41,9 +42,13 @@ Inductive op :=
 | Measure (i : inst) (k : skey) (v : Z)        (* synchronous Add / Record *)
 | Register (c : cbid) (insts : list inst)     (* Meter.RegisterCallback(c, insts...) *)
 | Unregister (c : cbid)                       (* Registration.Unregister *)
-| Collect (script : list attempt) (failing : list cbid).   (* both readers collect *)
+| Collect (who : N) (script : list attempt) (failing : list cbid).
 
-(** ** Input side: which recorded values belong to which cycle *)
+(** does a collection point involve the delta reader ([dl = true]) / the cumulative reader *)
+Definition includes (who : N) (dl : bool) : bool :=
+  match who with 0%N => true | 1%N => dl | _ => negb dl end.
+
+(** ** Input side: which recorded values belong to which cycle (of which reader) *)
 
 (** registrations in force, in registration order *)
 Definition reg := (cbid * list inst)%type.
@@ -65,20 +70,20 @@ Definition delivered (rs : list reg) (script : list attempt) (i : inst) : list (
               else []) rs.
 
 (** synchronous instrument [i]: the measurements between two collections *)
-Fixpoint cycles_sync (i : inst) (h : list op) (cur : list (skey * Z)) : list (list (skey * Z)) :=
+Fixpoint cycles_sync (dl : bool) (i : inst) (h : list op) (cur : list (skey * Z)) : list (list (skey * Z)) :=
   match h with
   | [] => []
-  | Measure i' k v :: r => cycles_sync i r (if Nat.eqb i' i then cur ++ [(k, v)] else cur)
-  | Collect _ _ :: r => cur :: cycles_sync i r []
-  | _ :: r => cycles_sync i r cur
+  | Measure i' k v :: r => cycles_sync dl i r (if Nat.eqb i' i then cur ++ [(k, v)] else cur)
+  | Collect w _ _ :: r => if includes w dl then cur :: cycles_sync dl i r [] else cycles_sync dl i r cur
+  | _ :: r => cycles_sync dl i r cur
   end.
 
 (** asynchronous instrument [i]: the observations delivered during each collection *)
-Fixpoint cycles_async (i : inst) (h : list op) (rs : list reg) : list (list (skey * Z)) :=
+Fixpoint cycles_async (dl : bool) (i : inst) (h : list op) (rs : list reg) : list (list (skey * Z)) :=
   match h with
   | [] => []
-  | Collect s _ :: r => delivered rs s i :: cycles_async i r rs
-  | o :: r => cycles_async i r (reg_step rs o)
+  | Collect w s _ :: r => if includes w dl then delivered rs s i :: cycles_async dl i r rs else cycles_async dl i r rs
+  | o :: r => cycles_async dl i r (reg_step rs o)
   end.
 
 (** does Collect report an error in a cycle: exactly when a registered callback failed.  The
@@ -87,11 +92,25 @@ Fixpoint cycles_async (i : inst) (h : list op) (rs : list reg) : list (list (ske
     mention [failing] at all). *)
 Definition cycle_err (rs : list reg) (failing : list cbid) : bool :=
   existsb (fun r => existsb (N.eqb (fst r)) failing) rs.
-Fixpoint errs_of (h : list op) (rs : list reg) : list bool :=
+Fixpoint errs_of (dl : bool) (h : list op) (rs : list reg) : list bool :=
   match h with
   | [] => []
-  | Collect _ f :: r => cycle_err rs f :: errs_of r rs
-  | o :: r => errs_of r (reg_step rs o)
+  | Collect w _ f :: r => if includes w dl then cycle_err rs f :: errs_of dl r rs else errs_of dl r rs
+  | o :: r => errs_of dl r (reg_step rs o)
+  end.
+
+(** the points at which both readers collect: (index of that collection among the delta reader's,
+    index among the cumulative reader's) *)
+Fixpoint sync_points (h : list op) (nd nc : nat) : list (nat * nat) :=
+  match h with
+  | [] => []
+  | Collect w _ _ :: r =>
+      match w with
+      | 0%N => (nd, nc) :: sync_points r (S nd) (S nc)
+      | 1%N => sync_points r (S nd) nc
+      | _ => sync_points r nd (S nc)
+      end
+  | _ :: r => sync_points r nd nc
   end.
 
 (** value of a cycle for one attribute set: several recordings of the same set in
@@ -144,12 +163,12 @@ Definition running_from (acc : option svec) (k : skey) (ds : list points) : opti
   fold_left (fun acc p => oplus acc (pget k p)) ds acc.
 Definition running := running_from None.
 
-(** Clause 1: every cumulative value equals the running total of the delta values
-    reported so far for that attribute set (and a set is in the cumulative view exactly
-    when some delta collection so far reported it). *)
-Definition RunningDelta (dtr ctr : list points) : Prop :=
-  length dtr = length ctr /\
-  forall n k, (n < length ctr)%nat -> pget k (nth n ctr []) = running k (firstn (S n) dtr).
+(** Clause 1: at every point where both readers collect, every cumulative value equals the running
+    total of the delta values reported so far for that attribute set (and a set is in the
+    cumulative view exactly when some delta collection so far reported it).  The readers may
+    collect on their own in between, any number of times. *)
+Definition RunningDelta (sync : list (nat * nat)) (dtr ctr : list points) : Prop :=
+  forall nd nc k, In (nd, nc) sync -> pget k (nth nc ctr []) = running k (firstn (S nd) dtr).
 
 (** Clause 2: delta points cover adjacent intervals, cumulative points keep one start,
     start never exceeds time.  Stated on the full trace of a stream (one entry per
@@ -205,12 +224,10 @@ Definition pmerge (acc d : points) : points := fold_left (fun a kv => padd (fst 
 Definition same_points (a b : points) : bool :=
   forallb (fun k => ovec_eqb (pget k a) (pget k b)) (keys_of a ++ keys_of b).
 
-Fixpoint running_deltab (acc : points) (dtr ctr : list points) : bool :=
-  match dtr, ctr with
-  | [], [] => true
-  | d :: dr, c :: cr => let acc' := pmerge acc d in same_points c acc' && running_deltab acc' dr cr
-  | _, _ => false
-  end.
+Definition running_deltab (sync : list (nat * nat)) (dtr ctr : list points) : bool :=
+  forallb (fun p => (fst p <? length dtr)%nat && (snd p <? length ctr)%nat &&
+                    same_points (nth (snd p) ctr []) (fold_left pmerge (firstn (S (fst p)) dtr) []))
+          sync.
 
 (** expected-value checks: for every key in the points or in the cycle *)
 Definition expect_points (p : points) (ks : list skey) (f : skey -> option svec) : bool :=
@@ -280,10 +297,10 @@ Definition stream_ok (cl : sclass) (i : inst) (h : list op) (dtr ctr : list sobs
   start_le_time_obs dtr && start_le_time_obs ctr &&
   forallb psorted dp && forallb psorted cp &&
   match cl with
-  | CSyncAdd => running_deltab [] dp cp
-  | CSyncGauge => let cy := cycles_sync i h [] in gauge_cycleb cy dp && gauge_sofarb [] cy cp
-  | CAsyncSum => let cy := cycles_async i h [] in async_deltab [] cy dp && async_cumb cy cp
-  | CAsyncGauge => let cy := cycles_async i h [] in gauge_cycleb cy dp && gauge_cycleb cy cp
+  | CSyncAdd => running_deltab (sync_points h 0 0) dp cp
+  | CSyncGauge => gauge_cycleb (cycles_sync true i h []) dp && gauge_sofarb [] (cycles_sync false i h []) cp
+  | CAsyncSum => async_deltab [] (cycles_async true i h []) dp && async_cumb (cycles_async false i h []) cp
+  | CAsyncGauge => gauge_cycleb (cycles_async true i h []) dp && gauge_cycleb (cycles_async false i h []) cp
   end.
 
 (** ** Base-2 exponential histograms that rescale (small MaxSize): scale-independent clauses
@@ -301,9 +318,23 @@ Definition bshift_count (d i : Z) (b : ebuckets) : Z :=
   fold_right (fun ic s => (if Z.shiftr (fst ic) d =? i then snd ic else 0) + s) 0 b.
 
 (** every count is in exactly one place *)
+Definition epoint_counts_ok (p : epoint) : bool :=
+  e_count p =? e_zero p + bsum (e_pos p) + bsum (e_neg p).
 Definition epoint_ok (p : epoint) : bool :=
-  (e_count p =? e_zero p + bsum (e_pos p) + bsum (e_neg p)) && (0 <=? e_zero p) && (0 <? e_count p) &&
-  forallb (fun ic => 0 <? snd ic) (e_pos p ++ e_neg p).
+  (0 <=? e_zero p) && (0 <? e_count p) && forallb (fun ic => 0 <? snd ic) (e_pos p ++ e_neg p).
+
+(** Which magnitudes a point has been fed, as a bit set: 1 = positive <= 1, 2 = positive > 1,
+    4 = negative of magnitude <= 1, 8 = negative of magnitude > 1.  At the minimum scale -10 there
+    are two buckets per sign, (0, 1] and (1, oo): with MaxSize 1 the values of one sign fit only if
+    they are all on one side of 1.  When they do not fit, the code counts a value it cannot bucket
+    (finding F-C07-1 of property C07) and stops rescaling that point, so its scale may stay above
+    the scale of a later delta point; the bucket and scale-order clauses are then not applied here -
+    count, sum, zero-count clauses and "the cumulative scale never rises" always are. *)
+Definition fits (maxsize flags : N) : bool :=
+  (2 <=? maxsize)%N ||
+  negb ((N.testbit flags 0 && N.testbit flags 1) || (N.testbit flags 2 && N.testbit flags 3)).
+Definition key_flags (k : skey) (m : list (skey * Z * N)) : N :=
+  fold_right (fun x f => if (fst (fst x) =? k)%N then N.lor (snd x) f else f) 0%N m.
 
 Fixpoint ekeys_sorted (ps : list epoint) : bool :=
   match ps with
@@ -314,36 +345,42 @@ Fixpoint ekeys_sorted (ps : list epoint) : bool :=
 Definition esum (f : epoint -> Z) (ps : list epoint) : Z := fold_right (fun p s => f p + s) 0 ps.
 
 (** cumulative point [c] against all delta points [ds] reported so far for its attribute set *)
-Definition cum_vs_deltas (c : epoint) (ds : list epoint) : bool :=
+Definition cum_vs_deltas (buckets : bool) (c : epoint) (ds : list epoint) : bool :=
   match ds with [] => false | _ => true end &&
   (e_count c =? esum e_count ds) && (e_sum c =? esum e_sum ds) && (e_zero c =? esum e_zero ds) &&
-  forallb (fun d => e_scale c <=? e_scale d) ds &&
-  let side (sel : epoint -> ebuckets) :=
-    let idxs := map fst (sel c) ++ flat_map (fun d => map (fun ic => Z.shiftr (fst ic) (e_scale d - e_scale c)) (sel d)) ds in
-    forallb (fun i => bshift_count 0 i (sel c) =? esum (fun d => bshift_count (e_scale d - e_scale c) i (sel d)) ds) idxs in
-  side e_pos && side e_neg.
+  (negb buckets ||
+   forallb (fun d => e_scale c <=? e_scale d) ds &&
+   let side (sel : epoint -> ebuckets) :=
+     let idxs := map fst (sel c) ++ flat_map (fun d => map (fun ic => Z.shiftr (fst ic) (e_scale d - e_scale c)) (sel d)) ds in
+     forallb (fun i => bshift_count 0 i (sel c) =? esum (fun d => bshift_count (e_scale d - e_scale c) i (sel d)) ds) idxs in
+   side e_pos && side e_neg).
 
-Definition key_count (k : skey) (m : list (skey * Z)) : Z :=
-  fold_right (fun kc s => (if (fst kc =? k)%N then snd kc else 0) + s) 0 m.
+Definition key_count (k : skey) (m : list (skey * Z * N)) : Z :=
+  fold_right (fun x s => (if (fst (fst x) =? k)%N then snd (fst x) else 0) + s) 0 m.
 
-(** [meas]: per cycle, how many values were recorded per attribute set; [obs]: per cycle, the
-    points of the delta reader and of the cumulative reader; [hist]: all delta points so far;
-    [prevc]: the cumulative points of the previous cycle. *)
-Fixpoint expo_run (hist prevc : list epoint) (meas : list (list (skey * Z))) (obs : list (list epoint * list epoint)) : bool :=
+(** [meas]: per cycle and attribute set, how many values were recorded and which magnitudes
+    ([key_flags]); [obs]: per cycle, the points of the delta reader and of the cumulative reader;
+    [hist]: all delta points so far; [prevc]: the cumulative points of the previous cycle;
+    [seen]: everything recorded so far. *)
+Fixpoint expo_run (maxsize : N) (hist prevc : list epoint) (seen : list (skey * Z * N))
+         (meas : list (list (skey * Z * N))) (obs : list (list epoint * list epoint)) : bool :=
   match meas, obs with
   | [], [] => true
   | m :: mr, (dp, cp) :: or_ =>
       let hist' := hist ++ dp in
+      let seen' := seen ++ m in
       ekeys_sorted dp && ekeys_sorted cp && forallb epoint_ok dp && forallb epoint_ok cp &&
+      forallb (fun p => negb (fits maxsize (key_flags (e_key p) m)) || epoint_counts_ok p) dp &&
+      forallb (fun p => negb (fits maxsize (key_flags (e_key p) seen')) || epoint_counts_ok p) cp &&
       (* the delta view shows exactly the cycle: one point per recorded set, counting every value *)
-      forallb (fun k => esum e_count (filter (fun p => (e_key p =? k)%N) dp) =? key_count k m) (map e_key dp ++ map fst m) &&
-      (* cumulative = running total of the deltas, bucket-wise after aligning scales *)
-      forallb (fun c => cum_vs_deltas c (filter (fun p => (e_key p =? e_key c)%N) hist')) cp &&
+      forallb (fun k => esum e_count (filter (fun p => (e_key p =? k)%N) dp) =? key_count k m) (map e_key dp ++ map (fun x => fst (fst x)) m) &&
+      (* cumulative = running total of the deltas; bucket-wise after aligning scales when everything fits *)
+      forallb (fun c => cum_vs_deltas (fits maxsize (key_flags (e_key c) seen')) c (filter (fun p => (e_key p =? e_key c)%N) hist')) cp &&
       forallb (fun d => existsb (fun c => (e_key c =? e_key d)%N) cp) hist' &&
       (* the scale of a cumulative point never goes back up *)
       forallb (fun c => forallb (fun pc => negb (e_key pc =? e_key c)%N || (e_scale c <=? e_scale pc)) prevc) cp &&
-      expo_run hist' cp mr or_
+      expo_run maxsize hist' cp seen' mr or_
   | _, _ => false
   end.
-Definition expo_ok (meas : list (list (skey * Z))) (obs : list (list epoint * list epoint)) : bool :=
-  expo_run [] [] meas obs.
+Definition expo_ok (maxsize : N) (meas : list (list (skey * Z * N))) (obs : list (list epoint * list epoint)) : bool :=
+  expo_run maxsize [] [] [] meas obs.
